@@ -71,7 +71,7 @@ struct Built {
     buffered: Vec<u8>,
 }
 
-fn build(ctx: &Ctx, suite: &Suite, family: usize, sel: usize, key: &[u8], ivseed: (u8, u32), hist: &[usize]) -> (String, Option<String>, Built) {
+fn build(ctx: &Ctx, suite: &Suite, family: usize, sel: usize, key: &[u8], ivseed: (u8, u32), hist: &[usize], pos_sel: u8) -> (String, Option<String>, Built) {
     let _ = ctx;
     let bs = suite.info.bs;
     match family {
@@ -105,6 +105,19 @@ fn build(ctx: &Ctx, suite: &Suite, family: usize, sel: usize, key: &[u8], ivseed
                 let d = tape::bytes(3, ivseed.1 ^ i as u32, (n % 4) * bs);
                 let mut out = vec![0u8; d.len()];
                 o.process(CoreKind::ApplyBlocksInout, &d, &mut out, &mut Sched::new([0; 6]));
+            }
+            // the position is part of the history too: small, far, and within a few blocks of the end
+            if let Some(w) = f.kind().width() {
+                let maxidx: u128 = if w == 128 { u128::MAX } else { (1u128 << w) - 1 };
+                let p = match pos_sel {
+                    0..=99 => None,
+                    100..=149 => Some((pos_sel as u128) % 50),
+                    150..=199 => Some((maxidx / 3).wrapping_mul(pos_sel as u128 % 3 + 1) & maxidx),
+                    _ => Some(maxidx - (pos_sel as u128 % 5)),
+                };
+                if let Some(p) = p {
+                    let _ = o.set_block_pos(p);
+                }
             }
             (f.core_type_name(), f.alg_name(), Built { debug: o.debug(), core_debug: None, buffered: vec![] })
         }
@@ -161,11 +174,13 @@ fn debug_text(ctx: &Ctx, t: &mut Tape<'_>, r: &mut Report) -> CheckResult {
     let n2 = t.idx(4);
     let l2 = t.idx(2 * bs + 1);
     let h2: Vec<usize> = (0..n2).map(|_| l2).collect();
-    let (ty, alg1, b1) = build(ctx, suite, family, sel, &k1, iv1, &h1);
-    let (_, alg2, b2) = build(ctx, suite, family, sel, &k2, iv2, &h2);
+    let (ps1, ps2) = (t.byte(), t.byte());
+    let (ty, alg1, b1) = build(ctx, suite, family, sel, &k1, iv1, &h1, ps1);
+    let (_, alg2, b2) = build(ctx, suite, family, sel, &k2, iv2, &h2, ps2);
+    r.label_if(family == 2 && (ps1 >= 200 || ps2 >= 200), "core-near-keystream-end");
     r.label("debug-text");
     r.nontrivial = (k1 != k2 || iv1 != iv2) && (!h1.is_empty() || !h2.is_empty());
-    r.d(|| format!("{ty} (k={}, iv={:?}, hist={h1:?}) vs (k={}, iv={:?}, hist={h2:?})", tape::hex_short(&k1), iv1, tape::hex_short(&k2), iv2));
+    r.d(|| format!("{ty} (k={}, iv={:?}, hist={h1:?}, pos_sel={ps1}) vs (k={}, iv={:?}, hist={h2:?}, pos_sel={ps2})", tape::hex_short(&k1), iv1, tape::hex_short(&k2), iv2));
     ensure!(alg1 == alg2, format!("C17/alg-name-varies/{ty}"), "algorithm name {alg1:?} vs {alg2:?}");
     match (&b1.debug, &b2.debug) {
         (None, None) => {
@@ -273,6 +288,17 @@ fn zeroize_scan(ctx: &Ctx, t: &mut Tape<'_>, r: &mut Report) -> CheckResult {
             if family == 2 {
                 let mut o = f.make_core(Ctor::New, &key, &iv).expect("harness: ctor");
                 let nblk = hist_n * (hist_len % 3);
+                // 64/128-bit counters: start from a large block position so that the counter value
+                // itself is an 8-byte secret window
+                let mut start: u128 = 0;
+                if let StreamKind::Ctr(w, _) = f.kind() {
+                    if w >= 64 {
+                        let mut st = (ivs as u64) << 16 | 0xC17;
+                        let x = ((tape::splitmix(&mut st) as u128) << 64) | tape::splitmix(&mut st) as u128;
+                        start = if w == 64 { (x as u64 as u128) >> 1 } else { x >> 1 };
+                        o.set_block_pos(start);
+                    }
+                }
                 for i in 0..hist_n {
                     let d = tape::bytes(3, ivs ^ i as u32, (hist_len % 3) * bs);
                     let mut out = vec![0u8; d.len()];
@@ -283,6 +309,11 @@ fn zeroize_scan(ctx: &Ctx, t: &mut Tape<'_>, r: &mut Report) -> CheckResult {
                     push_enc(&mut secrets, &s);
                 }
                 match f.kind() {
+                    StreamKind::Ctr(w, _) if w >= 64 => {
+                        let v = start + nblk as u128;
+                        secrets.push(v.to_le_bytes()[..(w / 8) as usize].to_vec());
+                        r.label("counter-value-secret");
+                    }
                     StreamKind::Belt => {
                         secrets.push(ksm.s0.to_le_bytes().to_vec());
                         secrets.push(ksm.s0.wrapping_add(nblk as u128).to_le_bytes().to_vec());
